@@ -74,6 +74,30 @@ fn run_spec(spec: checks::Spec, args: &Args, t0: Instant) -> i32 {
     finish(spec_outcome(spec, args, t0, args.secs))
 }
 
+/// A check whose subject is written separately for the two flavours runs its corpus on the async
+/// flavour as well: every `stride`-th program at preemption bound <= 1 in the quick tier, all of
+/// them at their own bounds in the thorough tier; a quarter of the time budget.
+fn run_both_flavours(id: &str, mk: fn(&str, model::Flavor) -> checks::Spec, args: &Args, t0: Instant, stride: usize) -> i32 {
+    let a = spec_outcome(mk(&args.tier, model::Flavor::Sync), args, t0, args.secs * 3 / 4);
+    let mut spec = mk(&args.tier, model::Flavor::Async);
+    let quick = args.tier == "quick";
+    if quick {
+        // families of up to 60 programs run in full, the big ones are thinned out
+        let mut per_tag: std::collections::HashMap<String, usize> = std::collections::HashMap::new();
+        for j in &spec.jobs {
+            *per_tag.entry(j.tag.clone()).or_default() += 1;
+        }
+        spec.jobs = spec.jobs.into_iter().enumerate().filter(|(i, j)| per_tag[&j.tag] <= 60 || i % stride == 0).map(|(_, j)| j).collect();
+        for j in spec.jobs.iter_mut() {
+            j.bounds.iter_mut().for_each(|b| *b = (*b).min(1));
+        }
+    }
+    spec.rule = format!("[async flavour{}] {}", if quick { format!(": families of up to 60 programs in full, every {}. program of the larger ones, bounds <= 1", stride) } else { String::new() }, spec.rule);
+    let mut b = spec_outcome(spec, args, t0, args.secs / 4);
+    b.property = format!("{}-async", id);
+    finish(merge(id, vec![a, b], t0))
+}
+
 /// Merge several outcomes of one property (numeric coverage keys are added, samples concatenated).
 fn merge(property: &str, parts: Vec<Outcome>, t0: Instant) -> Outcome {
     let mut cov = serde_json::Map::new();
@@ -157,8 +181,14 @@ fn c19(args: &Args, t0: Instant) -> i32 {
         let mut spec = mk("quick", Async);
         let stride = if quick { *stride } else { 1 };
         let total = spec.jobs.len();
-        spec.jobs = spec.jobs.into_iter().enumerate().filter(|(i, _)| i % stride == 0).map(|(_, j)| j).collect();
-        spec.rule = format!("[async {}: every {}-th program of its quick corpus ({} of {})] {}", name, stride, spec.jobs.len(), total, spec.rule);
+        // (families of up to 40 programs run in full: the named races and the multi-client shapes)
+        let mut per_tag: std::collections::HashMap<String, usize> = std::collections::HashMap::new();
+        for j in &spec.jobs {
+            *per_tag.entry(j.tag.clone()).or_default() += 1;
+        }
+        let keep_small = matches!(*name, "C03" | "C05" | "C09" | "C15" | "C16" | "C17");
+        spec.jobs = spec.jobs.into_iter().enumerate().filter(|(i, j)| (keep_small && per_tag[&j.tag] <= 40) || i % stride == 0).map(|(_, j)| j).collect();
+        spec.rule = format!("[async {}: {}every {}-th program of its quick corpus ({} of {})] {}", name, if keep_small { "families of up to 40 programs in full, of the larger ones " } else { "" }, stride, spec.jobs.len(), total, spec.rule);
         // the schedule-heavy corpora get twice the share and, in the quick tier, run at
         // preemption bound <= 1 (their synchronous twins run at the full bounds in their own checks)
         let heavy = matches!(*name, "C02" | "C10" | "C11" | "C12" | "C15" | "C17");
@@ -368,7 +398,7 @@ fn run_check(id: &str, args: &Args) -> i32 {
         "C12" => {
             // close() is written separately for the two flavours: the async corpus is part of this
             // check (quick: every 4th program at preemption bound <= 1; thorough: all of them)
-            let a = spec_outcome(checks::c12(&args.tier, model::Flavor::Sync), args, t0, args.secs * 2 / 3);
+            let a = spec_outcome(checks::c12(&args.tier, model::Flavor::Sync), args, t0, args.secs * 5 / 6);
             let mut spec = checks::c12(&args.tier, model::Flavor::Async);
             let quick = args.tier == "quick";
             if quick {
@@ -378,13 +408,15 @@ fn run_check(id: &str, args: &Args) -> i32 {
                 }
             }
             spec.rule = format!("[async flavour{}] {}", if quick { ": every 4th program, bounds <= 1" } else { "" }, spec.rule);
-            let mut b = spec_outcome(spec, args, t0, args.secs / 3);
+            let mut b = spec_outcome(spec, args, t0, args.secs / 6);
             b.property = "C12-async".into();
             finish(merge("C12", vec![a, b], t0))
         }
         "C17" => run_spec(checks::c17(&args.tier, model::Flavor::Sync), args, t0),
-        "C15" => run_spec(checks::c15(&args.tier, model::Flavor::Sync), args, t0),
-        "C20" => run_spec(checks::c20(&args.tier, model::Flavor::Sync), args, t0),
+        // (the lookup ring is written separately for the two flavours)
+        "C15" => run_both_flavours("C15", checks::c15, args, t0, 3),
+        // (so are the builders and their validation)
+        "C20" => run_both_flavours("C20", checks::c20, args, t0, 5),
         "C18" => {
             let agg = comp::run_cases("C18", "c18", comp::c18_cases(&args.tier), comp::c18_case, args.threads);
             let a = comp_outcome("C18-keybuilders", args, agg, "TransparentKeyBuilder over ALL values of u8, i8, u16, i16, bool and boundary sets (0, +-1, MIN, MAX, 2^j, 2^j+-1) of u32, i32, u64, i64, usize, isize: build_key == (k as u64, 0), stable across calls and instances, injective; DefaultKeyBuilder<String>: 4 instances x 1000 strings, String vs &str vs repeated calls", t0, &[]);
